@@ -281,16 +281,19 @@ package hybridbuffer
 // chunk included. lastcount: ghost - the last chunk count taken.
 //@ ghost var lastcount int
 //@ func (op *chunkOperator) CountExistingChunks() int
-//@   flag trusted counted
-//@   modifies lastcount, mval
+//@   flag counted
+//@   requires validop(op)
+//@   modifies lastcount, mval[ref(op.metrics.ioErrorsTotal)], op.maybeDir.*
+//@   ghostset lastcount := result
 //@   ensures result >= 0 && lastcount == result
+//@   loop 1: invariant -1 <= rangeindex && 0 <= numChunks && numChunks <= rangeindex + 1
 // set-up / tear-down of the per-entry operator: trusted, they touch neither the list nor the count
 //@ func newChunkOperator(parentLogger logger.Logger, path string, matchChunkID func(string) bool, metricCreator promreg.MetricCreator, maxTotalBytes int64) chunkOperator
 //@   flag trusted
 //@   modifies mval
 //@ func (op *chunkOperator) Close()
-//@   flag trusted
-//@   modifies mval
+//@   requires validop(op)
+//@   modifies mval[ref(op.metrics.ioErrorsTotal)], op.maybeDir.*
 //@ func listBufferQueueIDs(parentLogger logger.Logger, rootPath string, matchChunkID func(string) bool, parentMetricCreator promreg.MetricCreator) []string
 //@   property C06 C17
 //@   flag nosafety noinfer
